@@ -273,6 +273,9 @@ def run(ctx, rep):
     rep.info["loops"] = nloops
     rep.info["iterator_consumers"] = nconsumers
     rep.info["bounded_iterators"] = sorted(bounded)
+    # "a strictly increasing cursor yields at most len(data) items" rests on every decoder consuming >= 1 byte on success: C02 decode-size
+    from ._common import premise
+    premise(ctx, rep, "C02", "a successful parse consumes its entry size (>= 1 byte)", rules={"decode-size", "premise"}, where="src/")
     rep.trusted_base += ["core's slice/range iterators and Iterator::find/position terminate on finite iterators",
                         "C02/C04: a successful parse consumes >= 1 byte of the buffer it is given and fails once fewer remain, so a strictly "
                         "increasing cursor yields at most len(data) items"]
